@@ -438,6 +438,10 @@ func genFrame(r *Rng, bound *net.UDPAddr, buflen int) ([]byte, string) {
 	if r.Chance(1, 3) {
 		s.ihl = r.Range(5, 15)
 		s.options = r.Bytes((s.ihl - 5) * 4)
+		if r.Bool() {
+			s.options = genIPOptions(r)
+			s.ihl = 5 + len(s.options)/4
+		}
 	}
 	if r.Chance(1, 3) {
 		s.padding = r.Bytes(r.Range(1, 46))
@@ -698,4 +702,43 @@ func init() {
 		Nontrivial: func(line, out string) bool { return strings.Contains(out, "@") },
 		Enumerate:  enumRawrd,
 	})
+}
+
+// genIPOptions: an IPv4 option list as hosts and routers really emit it - the options of
+// RFC 791 / 1108 / 2113 in their proper layouts (no-operation, loose and strict source
+// route and record route with a pointer into their address list, timestamp, security,
+// stream id, router alert), ended and padded to a multiple of four octets.  A DHCP client's
+// raw socket delivers such datagrams like any other: the options are no criterion.
+// (seeded change C18-18: frames carrying a well-formed source-route option dropped.)
+func genIPOptions(r *Rng) []byte {
+	var o []byte
+	for n := r.Range(1, 3); n > 0 && len(o) < 30; n-- {
+		switch r.Intn(7) {
+		case 0:
+			o = append(o, 1) // no-operation
+		case 1, 2, 3:
+			typ := []byte{131, 137, 7}[r.Intn(3)] // LSRR, SSRR, RR
+			k := r.Range(1, 3)
+			if len(o)+3+4*k > 38 {
+				k = 1
+			}
+			ptr := 4 + 4*r.Intn(k+1)
+			o = append(o, typ, byte(3+4*k), byte(ptr))
+			o = append(o, r.Bytes(4*k)...)
+		case 4:
+			o = append(o, 148, 4, 0, 0) // router alert
+		case 5:
+			o = append(o, 68, 8, 5, 0) // timestamp, one slot
+			o = append(o, r.Bytes(4)...)
+		default:
+			o = append(o, 136, 4, byte(r.Intn(256)), byte(r.Intn(256))) // stream id
+		}
+	}
+	if len(o) > 40 {
+		o = o[:40]
+	}
+	for len(o)%4 != 0 {
+		o = append(o, 0) // end of list, padding
+	}
+	return o
 }
